@@ -1099,7 +1099,47 @@ fn pprime(bits: usize) -> Vec<Limbs> {
     out
 }
 
+/// inv_mod on operands whose quotient sequence repeats a short pattern of medium quotients until the width is full:
+/// the worst case for the NUMBER of outer Lehmer iterations (see C12's `periodic_quotients`).
+fn c10_periodic(r: &Runner) {
+    if SWEEP {
+        return;
+    }
+    let mut pats: Vec<Vec<u64>> = vec![vec![1], vec![2], vec![1 << 16], vec![5, 1]];
+    for q in [(1u64 << 22) + 1, (1 << 25) + 3, (1 << 28) - 1, (1 << 30) - 1, (1 << 31) + 5, 1 << 32] {
+        pats.extend([vec![q], vec![q, 1], vec![q, 1, q / 3 + 1, 1]]);
+    }
+    for bits in [1024usize, 1025] {
+        let m = pow2(bits);
+        let mut pairs: Vec<(Limbs, Limbs)> = vec![];
+        for pat in &pats {
+            for g in [1u32, 6] {
+                let (mut a, mut b) = (BigUint::from(g), BigUint::zero());
+                let mut k = 0;
+                loop {
+                    let na = &a * pat[k % pat.len()] + &b;
+                    if na >= m {
+                        break;
+                    }
+                    b = a;
+                    a = na;
+                    k += 1;
+                }
+                pairs.push((to_limbs(&a, bits), to_limbs(&b, bits)));
+            }
+        }
+        r.universe(&format!("periodic quotient sequences filling the width ({} pairs): inv_mod in both roles, reduce_mod", pairs.len()), bits, pairs.len(), |i, l| {
+            let (x, y) = (vu(&pairs[i].0), vu(&pairs[i].1));
+            l.states(1);
+            exec(l, bits, Op::inv_mod, &[y.clone(), x.clone()]);
+            exec(l, bits, Op::inv_mod, &[x.clone(), y.clone()]);
+            exec(l, bits, Op::reduce_mod, &[x.clone(), y.clone()]);
+        });
+    }
+}
+
 fn c10(r: &Runner) {
+    c10_periodic(r);
     r.set_rule("S(B)^3 = all triples of all values for B <= Smax (moduli include 0, 1, 2, 2^k, 2^B-1 automatically); at wide widths all triples over (limb alphabet product + P'(B)); inv_mod / reduce_mod on all pairs, and on every node of the quotient-sequence tree (inverse Euclid steps from seeds g in {1, 2, 15015, 2^64+1, 3*2^64+1, 2^128+1} with quotients {1,2,3,2^32-1,2^32,2^63,2^64-1}, every sequence with at most D deviations from the all-ones path). non-trivial = an operand is >= the modulus or the intermediate sum/product overflows BITS, or the modulus is 0");
     let smax = small_max(r, 6, 7);
     for bits in 0..=smax {
